@@ -6,12 +6,6 @@ From GS Require Import GraphModel GNSpec C03_sums C03_index C03_assembly.
 Import ListNotations.
 Open Scope R_scope.
 
-Definition is_fixed_index (vs : list vertex) (r : nat) : bool :=
-  match locate vs r with Some (k, _) => fixed_at vs k | None => false end.
-(* the normal equations  H dx = -b  on the flat system of size N *)
-Definition solves (N : nat) (H : nat -> nat -> R) (b dx : nat -> R) : Prop :=
-  forall r, (r < N)%nat -> sumnR N (fun c => H r c * dx c) = - b r.
-
 (* rows and columns of a fixed vertex: zero gradient, identity pattern in the Hessian *)
 Lemma spec_fixed_rows vs es r c : (r < glen vs)%nat -> (c < glen vs)%nat -> is_fixed_index vs r = true ->
   spec_b vs es r = 0 /\ spec_H vs es r c = ind (Nat.eqb r c) /\ spec_H vs es c r = ind (Nat.eqb c r).
